@@ -50,7 +50,7 @@ def main():
         if not ver["applies"]:
             print(f"{pid}_{var}: PATCH DOES NOT APPLY {r.stderr[:200]}")
         else:
-            r = sh(f"cd {wt} && PYTHONPATH={wt} /venv/bin/python -m pytest -q "
+            r = sh(f"ulimit -v 8000000; cd {wt} && PYTHONPATH={wt} /venv/bin/python -m pytest -q "
                    "-p no:cacheprovider -n 8 2>&1 | tail -1")
             ver["suite"] = r.stdout.strip()
             checks = ALL if args.checks == "all" else args.checks.split(",")
